@@ -7,6 +7,7 @@ spec/LinStore.tla searches for a sequential explanation.
 """
 
 import asyncio
+import os
 import math
 import random
 
@@ -404,7 +405,7 @@ def execute(seed, nwin=6, sessions=("A", "B", "C"), p_fifo=0.6, pop3=False, deli
         from . import schedsteps
         schedsteps.install()
         d.steps = schedsteps.Recorder()
-        schedsteps.ACTIVE[0] = d.steps
+        schedsteps.ACTIVE[0] = d.steps if not os.environ.get("VERIF_NO_STEPS") else None
         await w.start()
         d.install()
         d.emit = lambda *a, **k: {"i": 0}     # observation points only stamp; no trace here
